@@ -1285,5 +1285,43 @@ def standin_closure_cases_build(tier, seed):
     return check_closure_cases('buildfile', tier, 'closure_cases_build')
 
 
-STANDINS = [standin_prefix_values, standin_prefix_values_build, standin_scope_eval, standin_scope_build, standin_reserved_positions, standin_golden_prefixes,
+def standin_format_item_forms(tier, seed):
+    """`item` inside an expression format names the format argument in EVERY syntactic role (plain, selector base, copy base, callee, list
+    element, select value, nested in a call argument), whether or not an outer `item` exists, and is gone afterwards."""
+    forms = [  # (template expression, argument expression, expected text)
+        ('item', '7', '7'), ('item + 1', '7', '8'), ('item.a', '{a = 3}', '3'), ('item{b = 2}.b', '{a = 1}', '2'), ('item{b = 2}.a', '{a = 1}', '1'),
+        ('item(2)', 'inc', '3'), ('inc(item)', '4', '5'), ('[item].0', '6', '6'), ('(item)', '9', '9'), ('select (item, 0) => {x = 1}', '"x"', '1'),
+        ('item.0 + item.1', '[1, 2]', '3'), ('inc(item{n = 1}.n)', '{}', '2'),
+    ]
+    outers = ['', 'let item = {a = 90, b = 91, n = 92};\n', 'let item = 1000;\n', 'let item = func(q) => q + 100;\n']
+    cases, exp = [], []
+    for te, arg, want in forms:
+        for outer in outers:
+            src = 'let inc = func(x) => x + 1;\n%slet r = "<@{%s}>" %% %s;\n' % (outer, te, arg)
+            cases.append(src)
+            exp.append(('r', '"<%s>"' % want, None))
+            # afterwards: the outer binding is what it was / no binding at all
+            if outer:
+                cases.append(src + 'let same = item;\nlet r2 = "<@{%s}>" %% %s;\n' % (te, arg))
+                exp.append(('r2', '"<%s>"' % want, None))
+            else:
+                cases.append(src + 'let leak = item;\n')
+                exp.append((None, None, 'ERR'))
+    res = R.driver('eval', cases)
+    bound = '%d programs: %d uses of `item` inside `"<@{...}>" %% arg` (plain, selector / copy base, callee, argument, list element, select value) x no outer `item` / an outer tuple / int / function; plus the state afterwards' % (len(cases), len(forms))
+    for src, (name, want, st), (rst, out) in zip(cases, exp, res):
+        if st == 'ERR':
+            if rst == 'OK':
+                return dict(name='format_item_forms', bound=bound, cases=len(cases), status='violation', detail='`item` is still bound after the format expression: %s' % src.replace('\n', ' '),
+                            input=dict(source=src, expected='an error (no binding item)', observed=out, how=HOW['eval']))
+            continue
+        flat = norm(out) if rst == 'OK' else ''
+        if rst != 'OK' or ('%s=%s' % (name, want)) not in flat:
+            return dict(name='format_item_forms', bound=bound, cases=len(cases), status='violation',
+                        detail='%s -> %s %s, expected %s = %s' % (src.replace('\n', ' '), rst, out[:160].replace('\n', ' '), name, want),
+                        input=dict(source=src, expected='%s = %s' % (name, want), observed='%s %s' % (rst, out), how=HOW['eval']))
+    return dict(name='format_item_forms', bound=bound, cases=len(cases), status='ok')
+
+
+STANDINS = [standin_format_item_forms, standin_prefix_values, standin_prefix_values_build, standin_scope_eval, standin_scope_build, standin_reserved_positions, standin_golden_prefixes,
             standin_closure_cases_eval, standin_closure_cases_build, standin_closure_prefixes, standin_closure_build]
